@@ -83,7 +83,8 @@ class Closed:
                 return self.tag(e.args[0], st)
             if isinstance(e.func, ast.Attribute) and e.func.attr == 'union':
                 # set().union(*[X[k] for k in Y])
-                ts = [self.tag(e.func.value, st)]
+                unbound = isinstance(e.func.value, ast.Name) and e.func.value.id in ('set', 'frozenset') and e.func.value.id not in st
+                ts = [C if unbound else self.tag(e.func.value, st)]      # set.union(*sets): no receiver, the empty union is closed
                 for a in e.args:
                     if isinstance(a, ast.Starred) and isinstance(a.value, (ast.ListComp, ast.GeneratorExp)):
                         ts.append(self.tag(a.value.elt, self._comp_env(a.value, st)))
@@ -428,6 +429,28 @@ class Closed:
                     st, nid = self.state_at(e)
                     self.require('i', e, self.tag(e.args[0], st), 'acceptance decision `{}` (through the local helper {})'.format(u(e), g.name))
                     n += 1
+            # (t) the step is total: the unbound set.union(*sets) / set.intersection(*sets) needs at least one set, and the
+            # current state set of a simulation is empty as soon as every run has died
+            if isinstance(e, ast.Call) and isinstance(e.func, ast.Attribute) and e.func.attr in ('union', 'intersection') and isinstance(e.func.value, ast.Name) \
+                    and e.func.value.id in ('set', 'frozenset') and e.args and all(isinstance(a, ast.Starred) for a in e.args) and not e.keywords:
+                st, nid = self.state_at(e)
+                if e.func.value.id not in st:
+                    a0 = e.args[0].value
+                    src = a0.generators[0].iter if isinstance(a0, (ast.ListComp, ast.GeneratorExp, ast.SetComp)) and len(a0.generators) == 1 and not a0.generators[0].ifs else None
+                    t = self.tag(src, st) if src is not None else U
+                    fx = self.ctx.facts(self.f)
+                    atoms = fx.guard_atoms(nid) if nid is not None else []
+                    nonempty = src is not None and any((a[0] == 'truthy' and a[3] is True and a[1] == u(src)) or (a[0] == 'empty' and a[3] is False and a[1] == u(src)) for a in atoms)
+                    key = ('total', id(e))
+                    if key not in self.reported:
+                        self.reported.add(key)
+                        n += 1
+                        if nonempty:
+                            self.rep.holds(RULE + '.total', self.f, e, '`{}` is evaluated only for a non-empty {}'.format(u(e), u(src)))
+                        elif t in (C, R) and len(e.args) == 1:
+                            self.rep.violates(RULE + '.total', self.f, e, '`{}` raises TypeError (unbound method needs an argument) when the state set {} is empty, i.e. when every run has died before the end of the word: the acceptance test must answer False there (`set().union(*...)` is total)'.format(u(e), u(src)))
+                        else:
+                            self.rep.undecided(RULE + '.total', self.f, e, 'unbound `{}`: non-emptiness of the argument list is not established'.format(u(e)))
             # (ii) symbol steps
             if isinstance(e, ast.Call) and self.ctx.callee_name(self.f, e) in STEPS and len(e.args) >= 3:
                 st, nid = self.state_at(e)
